@@ -6,7 +6,8 @@ From TLV Require Import Base.Shape Base.PyList Base.Tensor Base.Ops Model.SvdDec
      Proofs.SvdDecompProofsR Proofs.SvdDecompTucker Proofs.SvdDecompTuckerFull Proofs.SvdDecompTuckerR
      Proofs.SvdDecompRing Proofs.SvdDecompRingR Proofs.SvdDecompPyth Proofs.SvdDecompError
      Proofs.SvdDecompTails Proofs.SvdDecompErrorR Proofs.SvdDecompTTM
-     Proofs.SvdDecompHooi Proofs.SvdDecompHooiR Proofs.SvdDecompRanks.
+     Proofs.SvdDecompHooi Proofs.SvdDecompHooiR Proofs.SvdDecompRanks
+     Proofs.SvdDecompTuckerErr Proofs.SvdDecompTuckerBound Proofs.SvdDecompHosvdBound.
 Import ListNotations.
 
 (* exactness of one TT-SVD step, over every commutative ring: truncating + sign-flipping a
@@ -404,3 +405,42 @@ Theorem C09_tensor_train_ranks_respected : forall (F : Type) (Op : fops F) (svd 
   match validate_tt_rank (ndim X) rank with Ok rk => ranks_respected cores (tl rk) | Err => False end.
 Proof. exact @tensor_train_ranks_respected. Qed.
 Print Assumptions C09_tensor_train_ranks_respected.
+
+(* Tucker error identity (every commutative ring, every order): whatever tucker() returns, if the returned factors
+   have orthonormal columns (no spanning assumption: genuinely truncating) the squared reconstruction error is the
+   sum over the modes of what the mode-k projector discards from the partially projected tensor *)
+Theorem C09_tucker_error_identity : forall (F : Type) (Op : fops F),
+  ring_theory (f0 Op) (f1 Op) (fadd Op) (fmul Op) (fsub Op) (fopp Op) (@eq F) ->
+  forall (svd : nat -> tensor F -> svdans) (X : tensor F) (rank : rank_spec) (n_iter : nat)
+         (core : tensor F) (fs : list (tensor F)),
+  tucker Op svd X rank n_iter = Ok (core, fs) -> length fs <= ndim X -> factors_orth Op (shape X) fs 0 ->
+  exists Xh, tucker_to_tensor Op core fs = Ok Xh /\ shape Xh = shape X /\
+             terr2 Op X Xh = fsumlist Op (tucker_discard_list Op X fs 0).
+Proof. exact @tucker_error_identity. Qed.
+Print Assumptions C09_tucker_error_identity.
+
+(* Tucker upper bound over R, any number of HOOI sweeps, any returned factors with orthonormal columns: the squared
+   error is at most the sum over the modes of what the projector U_k U_k^T discards from X itself
+   (error identity + Bessel's inequality for n-mode products + commutation along different modes) *)
+Theorem C09_tucker_error_upper_R : forall (svd : nat -> tensor R -> svdans) (X : tensor R) (rank : rank_spec)
+    (n_iter : nat) (core : tensor R) (fs : list (tensor R)),
+  tucker Rops svd X rank n_iter = Ok (core, fs) -> length fs <= ndim X -> factors_orth Rops (shape X) fs 0 ->
+  exists Xh, tucker_to_tensor Rops core fs = Ok Xh /\ shape Xh = shape X /\
+             (terr2 Rops X Xh <= Rsum (resid_list X fs 0))%R.
+Proof. exact tucker_error_upper_R. Qed.
+Print Assumptions C09_tucker_error_upper_R.
+
+(* HOSVD (tucker with n_iter_max = 0) over R, every order, under the full SVD contract for the mode unfoldings:
+   squared error <= sum over the modes of the discarded squared singular values of the mode-k unfolding of X (the
+   square of the root-sum-square bound of the property), and >= the discarded tail of the mode-0 unfolding *)
+Theorem C09_hosvd_error_bounds_R : forall (svd : nat -> tensor R -> svdans) (X : tensor R) (rank : rank_spec)
+    (core : tensor R) (fs : list (tensor R)),
+  wf X -> 0 < prod (shape X) ->
+  hosvd_full_contract svd X (validate_tucker_rank (ndim X) rank) 0 0 ->
+  tucker Rops svd X rank 0 = Ok (core, fs) ->
+  exists Xh, tucker_to_tensor Rops core fs = Ok Xh /\ shape Xh = shape X /\
+             (terr2 Rops X Xh <= Rsum (hosvd_tail_list svd X (validate_tucker_rank (ndim X) rank) 0 0))%R /\
+             (forall t, hd_error (hosvd_tail_list svd X (validate_tucker_rank (ndim X) rank) 0 0) = Some t ->
+                        (t <= terr2 Rops X Xh)%R).
+Proof. exact hosvd_error_bounds_R. Qed.
+Print Assumptions C09_hosvd_error_bounds_R.
